@@ -90,6 +90,7 @@ structure CrbState where
   idx : Int
   bpc : Nat
   acc : List Name
+  declared : Nat := 0      -- bytes of constant data declared by the records read so far (length words included)
 
 /-- one iteration of the `for i in range(crb_nconstants)` loop -/
 def crbStep (codec : Codec) (d : Bytes) (conOff : Int) (st : CrbState) : R CrbState := do
@@ -110,16 +111,21 @@ def crbStep (codec : Codec) (d : Bytes) (conOff : Int) (st : CrbState) : R CrbSt
     let len ← getSI 4 d idxc
     let strlength := len - 1
     let idxc := idxc + 4
+    -- the data of different constants do not overlap: together they fit in the file (F104)
+    let declared := st.declared + (4 + strlength.toNat)
+    if declared > d.length then throw .value else
     let s ← decodeText codec (pySlice d idxc (idxc + strlength))
-    pure { idx := idx2, bpc := bpc1, acc := st.acc ++ [Name.s (escapeString s)] }
+    pure { idx := idx2, bpc := bpc1, acc := st.acc ++ [Name.s (escapeString s)], declared := declared }
   else if ctype = 4 then
-    pure { idx := idx2, bpc := bpc1, acc := st.acc ++ [Name.s (intStr coff)] }
+    pure { idx := idx2, bpc := bpc1, acc := st.acc ++ [Name.s (intStr coff)], declared := st.declared }
   else if ctype = 9 then do
     let idxc := conOff + coff
     let flen ← getSI 4 d idxc
     let idxc := idxc + 4
+    let declared := st.declared + (4 + flen.toNat)
+    if declared > d.length then throw .value else
     let f ← unpackFloat80 (pySlice d idxc (idxc + flen))
-    pure { idx := idx2, bpc := bpc1, acc := st.acc ++ [Name.s f] }
+    pure { idx := idx2, bpc := bpc1, acc := st.acc ++ [Name.s f], declared := declared }
   else .error .value
 
 def crbLoop (codec : Codec) (d : Bytes) (conOff : Int) : Nat → CrbState → R CrbState
